@@ -22,6 +22,7 @@ EXPLANATION = (
     "C12.7: no default argument, memoised helper or module cache freezes gv.sps. Forms are compared modulo spelling (keyword/positional, "
     "method/function, index loop/element loop, True/1 stored in a boolean array, size/shape[0] of a 1-D value). Not decided: distribution of "
     "random repairs.")
+EXPLANATION += (' Added after the audit wave: C12.1 the power-of-two guard of HDD/SDD rejects M <= 0 as well (0 & -1 == 0 passes the bit test and the length test then divides by zero).')
 TRUSTED = ["numpy reshape/sum/argmax/where semantics", "numpy.random.randint(M) in [0, M), numpy.random.choice(j) in j", "utils.dec2bin (C19.5)"]
 
 M = S("M")
@@ -93,7 +94,7 @@ def vectorised_big_endian(fnode):
 
 def pow2_guard(ctx, fi, rule, param_classes=None):
     from ..rules import check_pow2_guard
-    check_pow2_guard(ctx, rule, fi, param_classes=param_classes)
+    check_pow2_guard(ctx, rule, fi, param_classes=param_classes, nonpositive=True)
 
 
 def length_guard(ctx, fi, it, rule, unit, what):
